@@ -408,7 +408,8 @@ def op_resize_inputs(w, a, b, c, d):
     n = w.node(a)
     if n is None:
         return None
-    n.resize_inputs(b % 5)
+    # (sometimes a negative size: an invalid request)
+    n.resize_inputs(-1 - (b >> 5) % 3 if (b >> 3) % 11 == 7 else b % 5)
 
 
 def op_resize_outputs(w, a, b, c, d):
